@@ -2,8 +2,13 @@
 # usage: trymutant.sh <patch.diff> <prop> [<prop>...]   - applies the patch to a scratch worktree of /repo HEAD,
 # runs the pinned test suite, then the given quick checks against it; removes the worktree afterwards.
 patch=$(readlink -f "$1"); shift
+# the tree the change is applied to: meta.json "apply_to" next to the patch (default HEAD)
+base=HEAD
+meta="$(dirname "$patch")/meta.json"
+[ -f "$meta" ] && base=$(python3 -c "import json,sys; print(json.load(open(sys.argv[1])).get('apply_to','HEAD'))" "$meta")
 wt=$(mktemp -d /tmp/wt_try_XXXX); rmdir "$wt"
-git -C /repo worktree add -q --detach "$wt" HEAD || exit 2
+git -C /repo worktree add -q --detach "$wt" "$base" || exit 2
+echo "applying to $base"
 trap 'git -C /repo worktree remove --force "$wt"' EXIT
 git -C "$wt" apply "$patch" || { echo "PATCH DOES NOT APPLY"; exit 2; }
 ( cd "$wt" && GOFLAGS=-mod=mod GOPROXY=off go build ./... ) || { echo "DOES NOT BUILD"; exit 2; }
